@@ -676,6 +676,15 @@ func (e *Exec) VerifyFunction(sp *FnSpec, prop string) (err error) {
 	e.genStart = time.Now()
 	// (a function abandoned in the middle of a specification or discovery pass must not leave its mode behind)
 	e.specMode, e.discovery, e.oldState = 0, 0, nil
+	e.codeReads = map[string]bool{}
+	loadHook = nil
+	if len(sp.NeverReads) > 0 {
+		loadHook = func(k string) {
+			if e.specMode == 0 {
+				e.codeReads[k] = true
+			}
+		}
+	}
 	if os.Getenv("GOVC_PATHSTAT") != "" {
 		defer func() {
 			fmt.Fprintf(os.Stderr, "PATHSTAT %s paths=%d specforks=%d\n", fnName(fn), e.paths, e.specForks)
@@ -827,6 +836,18 @@ func (e *Exec) VerifyFunction(sp *FnSpec, prop string) (err error) {
 		// no path reaches a return (every path was cut by an unrolling bound, died, or panicked): a lemma or a
 		// postcondition over zero outcomes would hold vacuously
 		e.obligeNamed(st, e.curFn+"#no-outcome", "vacuity", nil, sp.Pos, False)
+	}
+	for _, nr := range sp.NeverReads {
+		// loads executed by the code of the function (on any explored path; specification passes do not count)
+		goal := True
+		for k := range e.codeReads {
+			if strings.HasPrefix(k, nr[0]) {
+				goal = False
+			}
+		}
+		if len(outs) > 0 {
+			e.obligeNamed(outs[0].st, e.curFn+"#never-reads."+nr[0], "reads", []string{nr[1]}, sp.Pos, goal)
+		}
 	}
 	if sp.Pure && len(outs) > 0 {
 		// a pure function may only read the heap components it declares (its callers treat it as a function of those)
